@@ -23,7 +23,7 @@ NO_REPLY = "org.freedesktop.DBus.Error.NoReply"
 DISCONNECTED = "org.freedesktop.DBus.Error.Disconnected"
 LOCAL_NAMES = (NO_REPLY, DISCONNECTED)
 INFINITE = 0x7FFFFFFF
-FINITE_LIMIT = 1000000
+FINITE_LIMIT = 1000         # ms; timeouts below are "short" and must have fired by the end of the drain
 
 Finding = collections.namedtuple("Finding", "cls what call")
 
@@ -199,16 +199,18 @@ def judge(result, peer, closed_by_us_in_teardown=True):
         if xend:
             xe = xend[0]
             late = [n for n in notifies if n["s"] > xe["s"]]
+            # which API call brought the cancelled call back: a blocking wait that ended after the cancel, or not
+            via = ":via-block" if any(e["k"] == "bend" and e["s"] > xe["s"] for e in es) else ""
             if late:
-                F.append(Finding("cancelled-call-notified", "call %d was notified (seq %d) after dbus_pending_call_cancel had returned (seq %d)"
+                F.append(Finding("cancelled-call-notified" + via, "call %d was notified (seq %d) after dbus_pending_call_cancel had returned (seq %d)"
                                  % (idx, late[0]["s"], xe["s"]), idx))
             if xe["a"] == 0:
                 # not complete when cancel returned: "no reply is received"
                 if notifies and not late:
-                    F.append(Finding("cancelled-call-notified", "call %d was notified although it was incomplete when cancel returned" % idx, idx))
+                    F.append(Finding("cancelled-call-notified" + via, "call %d was notified although it was incomplete when cancel returned" % idx, idx))
                 comp_after = [o for o in obs if o[2] == 1]
                 if comp_after or completed_end or steals:
-                    F.append(Finding("completed-after-cancel", "call %d was incomplete when dbus_pending_call_cancel returned and was "
+                    F.append(Finding("completed-after-cancel" + via, "call %d was incomplete when dbus_pending_call_cancel returned and was "
                                      "completed later (%s)" % (idx, [o[3] for o in comp_after][:3] or "final state"), idx))
             crel = "cancel-before-completion" if xe["a"] == 0 else "cancel-after-completion"
         else:
